@@ -40,6 +40,8 @@ package link_solicit_controller
 // the set was scanned, admits the link and has the stream's hash is among the matches
 //@   assert at call solicit.NewSolicitMountedStream: forall s *solicitState trigger atlock(dom(c.solicitations, s)) :: atlock(s in c.solicitations) && solicitAdmits(s, ls) && solicitHashEq(s, ls, hashBytes) ==> exists k int :: 0 <= k && k < len(matches) && matches[k] == s
 //@   assert at call invoke.AddValue: same(arg0, sms)
+// the receiver of each hand-off is the handler of the match list's current element
+//@   assert at call invoke.AddValue: recv == ss.handler
 
 // C30, the advertising side: every registered solicitation whose peer and transport constraints admit
 // the link is advertised with its own protocol ID and context (one entry each; nothing is merged or
